@@ -24,7 +24,7 @@ use rand::distributions::{Distribution as _, Standard};
 use rand::{Rng, RngCore, SeedableRng};
 use std::sync::Arc;
 
-fn inverse_cdf<K: Bounded + Clone + Num + Debug, T: Float>(s: &impl DiscreteCDF<K, T>, p: T) -> K {
+fn inverse_cdf<K: Bounded + Clone + Num + Debug + PartialOrd, T: Float>(s: &impl DiscreteCDF<K, T>, p: T) -> K {
     if p == T::zero() {
         return s.min();
     };
@@ -35,10 +35,15 @@ fn inverse_cdf<K: Bounded + Clone + Num + Debug, T: Float>(s: &impl DiscreteCDF<
     let mut high = two.clone();
     let mut low = K::min_value();
     while s.cdf(high.clone()) < p {
+        // (the cumulative probability may never reach p in floating point: stop at the largest value)
+        if high > K::max_value() / two.clone() {
+            high = K::max_value();
+            break;
+        }
         high = high.clone() + high.clone();
     }
     while high != low {
-        let mid = (high.clone() + low.clone()) / two.clone();
+        let mid = low.clone() + (high.clone() - low.clone()) / two.clone();
         if s.cdf(mid.clone()) >= p {
             high = mid;
         } else if low == mid {
@@ -136,12 +141,14 @@ impl XDiscreteDistribution {
         }
     }
 
-    fn quantile(&self, x: f64) -> LazyBigint {
-        match self {
+    /// `None` when the quantile is not a finite number (e.g. the quantile at 1 of an unbounded distribution)
+    fn quantile(&self, x: f64) -> Option<LazyBigint> {
+        Some(match self {
             Self::Binomial(i) => inverse_cdf(i, x).into(),
             Self::Custom(items) => {
+                // cumulative probabilities end at (about) 1: the quantile at or beyond the last one is the last item
                 let idx = items.partition_point(|(_, p)| p <= &x);
-                items[idx].0.clone()
+                items[idx.min(items.len() - 1)].0.clone()
             }
             Self::Hypergeometric(i) => inverse_cdf(i, x).into(),
             Self::NegativeBinomial(i) => {
@@ -149,20 +156,18 @@ impl XDiscreteDistribution {
                     let p = i.p();
                     (((1.0 - x) / (1.0 - p)).ln() / (1.0 - p).ln())
                         .floor()
-                        .to_i64()
-                        .unwrap()
+                        .to_i64()?
                         .into()
                 } else {
                     inverse_cdf(i, x).into()
                 }
             }
             Self::Poisson(i) => inverse_cdf(i, x).into(),
-            Self::Uniform(i) => (x * ((i.max() - i.min() + 1) as f64) + (i.min() - 1) as f64)
+            Self::Uniform(i) => (x * (i.max() as f64 - i.min() as f64 + 1.0) + (i.min() as f64 - 1.0))
                 .floor()
-                .to_i64()
-                .unwrap()
+                .to_i64()?
                 .into(),
-        }
+        })
     }
 
     fn sample(&self, n: usize, rng: &mut impl RngCore) -> Vec<LazyBigint> {
@@ -391,6 +396,10 @@ pub(crate) fn add_discdist_negative_binomial<W, R, T>(
             let a1 = xraise!(eval(&args[1], ns, &rt)?);
             let i0 = to_primitive!(a0, Float);
             let i1 = to_primitive!(a1, Float);
+            if !(*i0 > 0.0) {
+                // (the regularised beta function behind cdf/pmf needs a positive number of successes)
+                return xerr(ManagedXError::new("r must be positive", rt)?);
+            }
             let ret = match NegativeBinomial::new(*i0, *i1) {
                 Ok(ret) => ret,
                 Err(e) => {
@@ -499,7 +508,8 @@ pub(crate) fn add_discdist_quantile<W, R, T>(
             if *f1 > 1.0 || *f1 < 0.0 {
                 return xerr(ManagedXError::new("quantile must be between 0 and 1", rt)?);
             }
-            Ok(ManagedXValue::new(XValue::Int(d0.quantile(*f1)), rt)?.into())
+            let Some(q) = d0.quantile(*f1) else { return xerr(ManagedXError::new("quantile is not finite", rt)?); };
+            Ok(ManagedXValue::new(XValue::Int(q), rt)?.into())
         }),
     )
 }
